@@ -42,7 +42,10 @@ def expected(doc):
     return "ok " + show_list(paras)
 
 
-def rand_line(rng, allow_empty=True, indent=False):
+def rand_line(rng, allow_empty=True, indent=False, long=False):
+    if long:
+        # a physical line longer than any read buffer (bufio's 4096 bytes): one logical line all the same
+        return b" ".join(rng.choice(WORDS) for _ in range(rng.randrange(900, 2200)))
     if allow_empty and rng.random() < 0.15:
         return b""
     t = b" ".join(rng.choice(WORDS) for _ in range(rng.randrange(1, 4)))
@@ -51,7 +54,7 @@ def rand_line(rng, allow_empty=True, indent=False):
     return t
 
 
-def rand_doc(rng, maxpara=4, maxfield=5, maxcont=4):
+def rand_doc(rng, maxpara=4, maxfield=5, maxcont=4, long=0.0):
     doc = []
     for _ in range(rng.randrange(1, maxpara + 1)):
         keys = rng.sample(KEYS, rng.randrange(1, min(maxfield, len(KEYS)) + 1))
@@ -59,11 +62,11 @@ def rand_doc(rng, maxpara=4, maxfield=5, maxcont=4):
         for k in keys:
             if k.endswith(b":"):
                 k = k[:-1] + b"c"
-            first = rand_line(rng)
+            first = rand_line(rng, long=rng.random() < long)
             conts = []
             if rng.random() < 0.5:
                 for _ in range(rng.randrange(1, maxcont + 1)):
-                    c = rand_line(rng, indent=True)
+                    c = rand_line(rng, indent=True, long=rng.random() < long)
                     if c == b".":
                         c = b".."
                     conts.append(c)
